@@ -149,8 +149,9 @@ def main(tier_: str) -> int:
             da.add_fixture('tears')
             da.add_mps()
             c = da.client()
+            live_n = int(datetime.datetime(2024, 3, 5, 12, 0, 0, tzinfo=datetime.timezone.utc).timestamp()) // 4 - 3     # 4 s segments since the epoch
             urls = [('/dash/vod/bbb/bbb_v7/3.m4v', 0), ('/dash/vod/bbb/bbb_a1/time/352256.m4a', 0),
-                    ('/dash/vod/bbb/bbb_t1/2.mp4', 0), ('/dash/live/bbb/bbb_v7/16094700.m4v?start=epoch&depth=60', 0),
+                    ('/dash/vod/bbb/bbb_t1/2.mp4', 0), (f'/dash/live/bbb/bbb_v7/{live_n}.m4v?start=epoch&depth=60', 0),
                     ('/dash/vod/bbb/bbb_v7_enc/2.m4v?drm=all', 0),
                     ('/dash/odvod/bbb/bbb_a1.m4a', 1), ('/dash/odvod/bbb/bbb_t1.mp4', 1),
                     ('/dash/odvod/bbb/bbb_v6.m4v', 1)]        # 1.8 MB: slices of more than a megabyte
@@ -162,7 +163,7 @@ def main(tier_: str) -> int:
             for url, mandatory in urls:
                 if mandatory:
                     # the reference bytes of an on-demand resource are the stored file itself, not a response
-                    fr = c.get(url, headers={'Range': 'bytes=0-0'})
+                    fr = c.get(url, headers={'Range': 'bytes=0-'})
                     stem = url.rsplit('/', 1)[-1].split('.')[0]
                     disk = da.blob_folder / 'bbb' / f'{stem}.mp4'
                     full = disk.read_bytes() if fr.status_code == 206 and disk.exists() else None
@@ -198,7 +199,7 @@ def main(tier_: str) -> int:
                              'exc': type(err).__name__}
                     lines.append({'tid': tid, 'layer': 'http', 'h': classify(raw), 'L': L, 'mandatory': mandatory,
                                   'raw': raw if raw is not None else '(absent)', 'url': url, 'r': r})
-            if usable < 7:
+            if usable < 8:
                 raise MachineryFailure(f'only {usable} range-capable URLs usable: {out.notes}')
         vs, st = validate_trace('HttpRangeTrace', lines, workdir=d, chunk=5000, parallel=4)
         drift = 0
